@@ -4,6 +4,7 @@ use crate::framework::Family;
 
 pub mod aio;
 pub mod async_fleet;
+pub mod async_hostile;
 pub mod async_tcp;
 pub mod c03_common;
 pub mod client_blocking;
@@ -29,6 +30,7 @@ pub fn all() -> &'static [Family] {
         v.extend(registry_tree::families());
         v.extend(async_tcp::families());
         v.extend(async_fleet::families());
+        v.extend(async_hostile::families());
         v
     })
 }
